@@ -11,6 +11,8 @@ import (
 
 type Clause struct {
 	Kind    string // requires | demands | ensures | invariant
+	Uses    []string
+	HasUses bool
 	CallSiteOnly bool // demands: checked at call sites (and then assumed there), NOT assumed when verifying the body
 	Props   []string
 	Reading Reading
@@ -276,9 +278,16 @@ func parseClause(kind, s string) (*Clause, error) {
 		cl.Props = parseProps(s[:i+1])
 		s = strings.TrimSpace(s[i+1:])
 	}
-	if strings.HasPrefix(s, "{") {
+	for strings.HasPrefix(s, "{") {
 		i := strings.Index(s, "}")
-		cl.Reading = Reading(strings.TrimSpace(s[1:i]))
+		opt := strings.TrimSpace(s[1:i])
+		if strings.HasPrefix(opt, "uses") {
+			// {uses a b c}: this loop invariant is preserved using only the named invariants of the same loop
+			cl.Uses = strings.Fields(strings.ReplaceAll(opt[4:], ",", " "))
+			cl.HasUses = true
+		} else {
+			cl.Reading = Reading(opt)
+		}
 		s = strings.TrimSpace(s[i+1:])
 	}
 	// label: an identifier followed by ':' (not '::')
